@@ -632,7 +632,10 @@ def _bit_of(e):
 
 def _cmp_atoms(canon, left, op, right, leaf):
     """formula for one comparison, reduced to == and < atoms"""
-    lt, rt = norm(left), norm(right)
+    # an operand that is itself a comparison / boolean / conditional keeps its parentheses in the atom's text (`(a >= k) == (b >= k)`
+    # is not the chained comparison `a >= k == b >= k`)
+    _pt = lambda x: "(%s)" % norm(x) if isinstance(x, (ast.Compare, ast.BoolOp, ast.IfExp, ast.Lambda, ast.NamedExpr)) else norm(x)
+    lt, rt = _pt(left), _pt(right)
     if isinstance(op, (ast.Eq, ast.NotEq)):
         for x, k in ((left, right), (right, left)):
             b = _bit_of(x)
@@ -3164,6 +3167,16 @@ def _condition_mutation(f_code, f_ref, all_code=None, all_ref=None, extra=()):
             print("REFUTE atoms", r_, "|", only_b[0][:200], "|", only_a[0][:200])
         if r_ is True:       # `n > 20` for `n >= 21` is the same test
             return True
+    if 1 <= len(only_a) <= 2 and 1 <= len(only_b) <= 2:
+        # one test exchanged for another test ABOUT THE SAME OPERANDS (`if rest:` for `if len(rest) > 1:`): a verdict when a witness
+        # valuation of those operands, with every other atom about them evaluated as well, makes the two conditions differ
+        from . import refute
+        if refute.same_operands(only_b, only_a):
+            r_ = refute.refute_conditions(f_ref, f_code)
+            if os.environ.get("VERIF_REFUTE_DEBUG"):
+                print("REFUTE exchange", r_, "|", only_b, "|", only_a)
+            if r_ is True:
+                return True
     if POLICY not in ("strict", "cautious") and only_a and not only_b and extra and all_code is not None and all_ref is not None \
             and not (set(only_a) & all_ref) and not (all_ref - all_code):
         # tests added, new to the function, none lost, AND the function has a way out or an effect the reference does not
